@@ -526,7 +526,10 @@ pub fn profile_for(prop: &str, tier: &str) -> Profile {
             p.hybrid_pct = 65;
             p.w_recaps = 8;
             p.w_encaps = 6;
-            p.w_edits = [1, 1, 2, 2, 1, 4];
+            // encapsulations with many targets, and structures that shrink under them (whole dimensions and attributes
+            // deleted): the master key may end up with fewer rights than an old encapsulation has components
+            p.w_edits = [1, 3, 2, 4, 1, 4];
+            p.max_clauses = 5;
             p.matrix_often = true;
         }
         _ => {}
